@@ -24,11 +24,19 @@ def run(ctx):
         'the wall thickness; the unrodded formulas are the q = 0 instance',
         'R5 without wall heating the wall temperatures are convex '
         'combinations of the two coolant temperatures (weights are ratios of '
-        'sums of positive monomials)']
+        'sums of positive monomials)',
+        'R6 (finite index domain, n_duct = 1..6) which coolant each wall '
+        'face sees: duct i takes its inner boundary condition from the bundle '
+        'interior (i = 0) or bypass gap i-1, its outer one from the '
+        'inter-assembly gap arguments (i = n_duct-1) or bypass gap i, always '
+        'a valid gap index; the bypass solvers read the mirror relation '
+        '(gap j touches face 1 of duct j and face 0 of duct j+1)']
     ctx.not_decided += ['floating-point evaluation error of the closed forms']
     ctx.assumptions += ['k, h_in, h_out, L > 0']
     r3(ctx)
     r4(ctx)
+    r6(ctx)
+    ctx.min_instances('C11.R6', 8)
     ctx.min_instances('C11.R3', 2)
     ctx.min_instances('C11.R4', 12)
 
@@ -275,3 +283,138 @@ def r4(ctx):
     ctx.require(ok, 'C11.R4', fu, ad[0] if ad else fu.node,
                 'unrodded adiabatic wall: no gradient (wall = coolant)',
                 key=fu.full + ' | adiabatic')
+
+
+# ---------------------------------------------------------------------------
+# R6: which coolant does each wall face see
+
+def _first_index(sub):
+    sl = sub.slice
+    return sl.elts[0] if isinstance(sl, ast.Tuple) else sl
+
+
+def _int_eval(e, env):
+    """Integer value of an index expression over env, or None."""
+    try:
+        return U.const_eval(e, env)
+    except (ValueError, KeyError, TypeError):
+        pass
+    if isinstance(e, ast.Name) and e.id in env:
+        return env[e.id]
+    if isinstance(e, ast.BinOp) and isinstance(e.op, (ast.Add, ast.Sub)):
+        l, r = _int_eval(e.left, env), _int_eval(e.right, env)
+        if l is None or r is None:
+            return None
+        return l + r if isinstance(e.op, ast.Add) else l - r
+    if src(e) in env:
+        return env[src(e)]
+    return None
+
+
+def r6(ctx):
+    repo = ctx.repo
+    fi = repo.func('region_rodded', 'RoddedRegion._calc_duct_temp')
+    lp = [n for n in walk_no_nested(fi.node) if isinstance(n, ast.For)
+          and call_name(n.iter) == 'range' and 'n_duct' in src(n.iter)]
+    if len(lp) != 1 or not isinstance(lp[0].target, ast.Name):
+        raise AnalysisError('_calc_duct_temp: duct loop')
+    iv = lp[0].target.id
+    gap_params = set(fi.params[2:4])
+    roles = {'t_in': 'inner', 'htc_in': 'inner', 't_out': 'outer',
+             'htc_out': 'outer'}
+    BYP = ("self.temp['coolant_byp']", "self.coolant_byp_params['htc']")
+    INT = ("self.temp['coolant_int']", "self.coolant_int_params['htc']")
+    seen_roles = set()
+    for st in walk_no_nested(lp[0]):
+        if not (isinstance(st, ast.Assign) and len(st.targets) == 1 and
+                isinstance(st.targets[0], ast.Name) and
+                st.targets[0].id in roles):
+            continue
+        name = st.targets[0].id
+        role = roles[name]
+        subs = [n for n in ast.walk(st.value) if isinstance(n, ast.Subscript)]
+        byp = [n for n in subs if ' '.join(src(n.value).split()) in BYP]
+        is_int = any(' '.join(src(n).split()) in INT for n in subs)
+        is_gap = any(isinstance(n, ast.Name) and n.id in gap_params
+                     for n in ast.walk(st.value))
+        if not (byp or is_int or is_gap):
+            continue                 # re-indexing of the value itself
+        kind = 'byp' if byp else ('int' if is_int else 'gap')
+        gs = U.guards(st)
+        bad = None
+        npts = 0
+        for n in range(1, 7):
+            for i in range(n):
+                env = {iv: i, 'self.n_duct': n}
+                ok = True
+                for t, pol in gs:
+                    v = U.eval_test(t, env)
+                    if v is not None and v != pol:
+                        ok = False
+                if not ok:
+                    continue
+                npts += 1
+                if role == 'inner':
+                    want = ('int', None) if i == 0 else ('byp', i - 1)
+                else:
+                    want = ('gap', None) if i == n - 1 else ('byp', i)
+                if kind != want[0]:
+                    bad = bad or 'duct %d of %d takes its %s boundary ' \
+                        'condition from %s, expected %s' % (
+                            i, n, role, kind, want[0])
+                    continue
+                for b in byp:
+                    v = _int_eval(_first_index(b), env)
+                    if v != want[1] or not 0 <= v <= n - 2:
+                        bad = bad or 'duct %d of %d: %s face reads bypass ' \
+                            'gap %s via %s, expected gap %d' % (
+                                i, n, role, v, src(b)[:50], want[1])
+        seen_roles.add((name, kind))
+        ctx.require(bad is None and npts > 0, 'C11.R6', fi, st,
+                    bad or 'boundary-condition assignment is unreachable for '
+                    'every duct count', note='%s <- %s (%d index points)'
+                    % (name, kind, npts),
+                    key='%s | %s from %s' % (fi.full, name, kind))
+    need = {(a, 'byp') for a in roles} | {
+        ('t_in', 'int'), ('htc_in', 'int'), ('t_out', 'gap'),
+        ('htc_out', 'gap')}
+    ctx.require(need <= seen_roles, 'C11.R6', fi, lp[0],
+                'every wall face needs its three boundary-condition sources; '
+                'missing %s' % sorted(need - seen_roles),
+                key=fi.full + ' | boundary condition sources')
+    # mirror relation in the bypass solvers
+    for q in ('RoddedRegion._calc_coolant_byp_temp',
+              'RoddedRegion._calc_coolant_byp_temp_stagnant'):
+        f = repo.func('region_rodded', q)
+        for lp2 in [n for n in walk_no_nested(f.node)
+                    if isinstance(n, ast.For) and call_name(n.iter) == 'range'
+                    and 'n_bypass' in src(n.iter)
+                    and isinstance(n.target, ast.Name)]:
+            jv = lp2.target.id
+            faces = set()
+            bad = None
+            for n in walk_no_nested(lp2):
+                if not isinstance(n, ast.Subscript):
+                    continue
+                base = ' '.join(src(n.value).split())
+                if base == "self.temp['duct_surf']" and isinstance(
+                        n.slice, ast.Tuple) and len(n.slice.elts) == 2:
+                    d = _int_eval(n.slice.elts[0], {jv: 10})
+                    fc = _int_eval(n.slice.elts[1], {jv: 10})
+                    if (d, fc) not in ((10, 1), (11, 0)):
+                        bad = bad or 'bypass gap j reads duct_surf[%s]: it ' \
+                            'touches face 1 of duct j and face 0 of duct ' \
+                            'j+1 only' % src(n.slice)
+                    faces.add((d, fc))
+                elif base == "self.temp['coolant_byp']" and isinstance(
+                        n.ctx, ast.Load):
+                    d = _int_eval(_first_index(n), {jv: 10})
+                    if d != 10:
+                        bad = bad or 'bypass gap j reads coolant_byp[%s]' \
+                            % src(n.slice)
+            if not faces:
+                continue
+            ctx.require(bad is None and faces == {(10, 1), (11, 0)},
+                        'C11.R6', f, lp2, bad or 'a bypass gap must exchange '
+                        'heat with both adjacent duct faces',
+                        key=f.full + ' | faces of a bypass gap')
